@@ -40,9 +40,9 @@ pub fn consult<CS: CipherSuite>(r: &ReadState<CS>) -> ListView {
 }
 
 /// Both copies (read copy, write copy). Only meaningful while no writer operation is in progress.
-pub fn both_copies<CS: CipherSuite>(r: &ReadState<CS>) -> (ListView, ListView) {
-    (
-        view(r.inner.load_read_list().expect("read offset is valid")),
-        view(r.inner.load_write_list().expect("write offset is valid")),
-    )
+/// The third component says whether `read_off` and `write_off` name the same copy.
+pub fn both_copies<CS: CipherSuite>(r: &ReadState<CS>) -> (ListView, ListView, bool) {
+    let rd = r.inner.load_read_list().expect("read offset is valid");
+    let wr = r.inner.load_write_list().expect("write offset is valid");
+    (view(rd), view(wr), core::ptr::eq(rd, wr))
 }
